@@ -15,7 +15,7 @@ claimed = {
  "C12": dict(
    text="Static lockset analysis decides, for all schedules, that every access to MapPollard's guarded fields (direct or through the Nodes/CachedLeaves "
         "interfaces) is made under the required RWMutex mode on every path, that no lock holder re-enters the lock, that each exported call is one "
-        "critical section - counting the sections of the functions it calls, so a query assembled from separately locked getters is refused - and that every return releases exactly what it holds. Sufficient for data-race freedom and whole-block visibility through "
+        "critical section - counting the sections of the functions it calls, so a query assembled from separately locked getters is refused - that every return releases exactly what it holds, and that the mutex of a live instance is never replaced. Sufficient for data-race freedom and whole-block visibility through "
         "the package's own code; correctness of the returned values is not decided.",
    ref="DESIGN.md 5/C12, engine E4",
    technique="static lockset / typestate dataflow over go/ssa CFGs with interprocedural lock requirements (custom analyzer)"),
@@ -35,7 +35,7 @@ claimed["C03"] = dict(
         "candidate; success is returned only behind 'candidates == matches' and, in a verifier that compares the hash and target counts, only after that comparison; the hashing core sees caller-supplied hashes only behind a length check and behind a refusal of the reserved zero hash (which the core "
         "would move up unhashed); a failing return of the core is guarded by a comparison of the claimed position with a bound computed from the leaf count; siblinghood is never "
         "concluded from rightSib(a)==b alone; the verifiers use the positions the candidates were computed at; and on every verification path positions are used in the coordinate "
-        "system (tree layout vs the map forest's TotalRows layout) the accompanying height denotes; neither input of the core's parent-hash step can be the default value of its variable. These are necessary conditions of soundness, decided for all inputs (five of "
+        "system (tree layout vs the map forest's TotalRows layout) the accompanying height denotes; neither input of the core's parent-hash step can be the default value of its variable, and a cursor over claimed hashes advances only past an entry that was read. These are necessary conditions of soundness, decided for all inputs (five of "
         "them fired on the pinned tree and were repaired); that the core recomputes the right candidates (arithmetic, hashing) is not decided.",
    ref="DESIGN.md 5/C03, engine E2",
    technique="static error-propagation and guard (dominating branch edge) analysis on go/ssa, anchors resolved by role; coordinate-layout abstract interpretation of the verification paths (custom analyzer)")
@@ -44,7 +44,7 @@ claimed["C04"] = dict(
    text="Static path analysis over the verification closure decides, for all inputs: a rejected Stump.Update has written nothing (no state write can reach a "
         "failing return; complete for that clause); no discarded error can be non-nil (callee error condition excluded by a dominating guard on the same SSA values); "
         "every loop matches a terminating idiom or a reviewed entry and the reviewed merge loop makes progress on every path; caller-supplied slices, and in the two "
-        "matching verifiers every computed index, are bounded by a dominating length test (a bound by another slice's length needs a dominating relation between the two lengths - also for a computed slice indexed up to the length of a caller's list). "
+        "matching verifiers every computed index, are bounded by a dominating length test (a bound by another slice's length needs a dominating relation between the two lengths - also for a computed slice indexed up to the length of a caller's list, and for a slice made with a fixed length that is filled through its own counter). "
         "Termination of the two reviewed loops and absence of index panics in helpers are not decided.",
    ref="DESIGN.md 5/C04, engine E2",
    technique="static must-not-precede (CFG reachability with error-edge refinement), guard analysis on SSA values, loop-idiom classification on the typed AST (custom analyzer)")
@@ -94,7 +94,7 @@ claimed["C15"] = dict(
    text="Static guard and dataflow rules on the schedule generator decide, for all histories and limits, the memory bound clause: the working cache grows only "
         "under a strict len(cache) < maxMemory test on the value appended to or right after a one-element removal, and every scheduled position is read from that "
         "cache; the ordering clause: each row is sorted after its last append; and three conditions of completeness: recorded deletions are sorted ascending before de-twinning, "
-        "every recorded root state has the block's deletions applied, the TTL table is recomputed before it is read, and tree/branch detection with a discarded error is applied to a tracked position only behind an exact existence test. That positions are the right insertion slots and uniqueness are not decided.",
+        "every recorded root state has the block's deletions applied, the TTL table is recomputed before it is read, tree/branch detection with a discarded error is applied to a tracked position only behind an exact existence test, and generating a schedule never writes through a recorded list or an alias of it. That positions are the right insertion slots and uniqueness are not decided.",
    ref="DESIGN.md 5/C15, engine E2",
    technique="static guard analysis on SSA values, value-web dataflow, must-pass-through rules and order-class dataflow (taint to requires-sorted sinks) on go/ssa (custom analyzer)")
 claimed["C01"] = dict(
